@@ -753,7 +753,7 @@ func c08(c *ctx) {
 			var cleanupFn *ssa.Function
 			instrs(addBorders, func(in ssa.Instruction) {
 				if mc, ok := in.(*ssa.MakeClosure); ok {
-					if fn, ok := mc.Fn.(*ssa.Function); ok && len(callsIn(fn, false, smtCommit)) > 0 {
+					if fn, ok := mc.Fn.(*ssa.Function); ok && c.p.callsThroughNew(fn, smtCommit, 0) {
 						cleanupFn = fn
 					}
 				}
